@@ -332,6 +332,19 @@ def mempool_events(ctx, P, cg):
         for e, state, st in mf.events:
             ctx.ob("%s/added-after-finalize@L%s" % (q.rsplit("::", 1)[-1], st.get("l")), "ORDER", "TransactionAddedToMempool is emitted only after FinalizeSubpackage put the "
                    "transaction(s) into the mempool", "finalized" in state, "%s:%s" % (f.file, st.get("l")))
+        # completeness: once FinalizeSubpackage put the transaction(s) into the pool, a successful return must have announced them
+        # (unless there is no signals object): a committed-but-unannounced transaction would later be reported "removed" only
+        from sa.engine.paths import MayFlow as EngineMayFlow2
+        pend = EngineMayFlow2(f, P, gens=[("unannounced", is_fin)], kills=[("unannounced", SIG("TransactionAddedToMempool"))],
+                              branch_kills=[("unannounced", lambda a: F.atoms(F.to_formula(a)) == ["m_pool.m_opts.signals"], False)])
+        pend.run()
+        nsucc = 0
+        for st_, stm in pend.exits:
+            v = stm.get("v")
+            if stm.get("k") == "ret" and is_expr(v) and any((callee(x) or "").endswith("MempoolAcceptResult::Success") for x in subexprs(v)):
+                nsucc += 1
+                ctx.ob("%s/success-implies-announced@L%s" % (q.rsplit("::", 1)[-1], stm.get("l")), "MPT", "a Success result after FinalizeSubpackage is returned only once "
+                       "TransactionAddedToMempool was emitted for the committed transaction (or no signals object exists)", "unannounced" not in st_, "%s:%s" % (f.file, stm.get("l")))
         subst = naming(f, P)
         for s in sites(f, SIG("TransactionAddedToMempool"), P):
             g, _, _ = F.bind_atoms(s.formula(subst), {"TEST": "args.m_test_accept", "PKG": "args.m_package_submission", "BYPASS": "args.m_bypass_limits",
